@@ -7,14 +7,19 @@
    new side, deletion of a file equal to the old side gives the empty, absent file (C01_create,
    C01_delete).  Splitting a file into lines and writing it back is the identity on arbitrary bytes
    (C01_split_concat).
-   PARTIAL: that what GNU diff / git diff print for (A, B) - in each header dialect - parses to hunks of
-   that shape whose region replacement is B is not proved (no model of diff): the extracted checker
-   c01_check evaluates exactly these hypotheses on the tools' output for generated pairs, and the push
-   of the real binary (and of the L3 model) on a tree holding A must leave B, with -R back to A.
+   A specification-level generator of unified diffs (DiffGen.hunks_of: edit script + context width -> hunks) is
+   proved to produce such hunks for EVERY script and EVERY context width, in both directions
+   (C01_every_script, C01_every_script_reverse).
+   PARTIAL: that what GNU diff / git diff print for (A, B) - in each header dialect - is what the generator
+   produces for some script, and parses back to it, is not proved (no model of the tools' alignment search
+   nor of their printers): the generator is compared with `diff -U c` on scripts with pairwise different lines
+   (unique alignment), the extracted checker c01_check evaluates the theorem's hypotheses on the tools' output
+   for arbitrary generated pairs, and the push of the real binary (and of the L3 model) on a tree holding A
+   must leave B, with -R back to A.
    REFUTED for context width 0 at the top of a file (known finding ctxfree-top, witnesses below). *)
 From Coq Require Import List ZArith NArith Bool String.
 Import ListNotations.
-From RQ Require Import Base Apply ApplySpec Parser Quilt PlaceProofs DiffSpec DiffCheck.
+From RQ Require Import Base Apply ApplySpec Parser Quilt PlaceProofs DiffSpec DiffCheck DiffGen.
 
 Theorem C01_exact_diff_applies :
   forall (line : Type) (line_eqb : line -> line -> bool),
@@ -28,6 +33,41 @@ Theorem C01_exact_diff_applies :
     Forall2 (exact_report line d) (fp_hunks fp) rs /\ r_failed (mk_report d F rs) = false.
 Proof. exact exact_diff_applies. Qed.
 Print Assumptions C01_exact_diff_applies.
+
+(* for EVERY edit script in normal form and EVERY context width: the hunks a unified diff has for it (context of
+   up to c lines, clipped at the ends of the file, changes closer than 2c+1 kept lines being one hunk) applied to
+   the source give the destination, each hunk at offset 0 with fuzz 0, whatever fuzz limit is allowed; and the same
+   hunks applied in reverse take the destination back to the source *)
+Theorem C01_every_script :
+  forall (line : Type) (line_eqb : line -> line -> bool),
+  (forall a b, line_eqb a b = true <-> a = b) ->
+  forall c k0 cs (fp : Apply.fpatch line) (mf : Apply.mfile line) F,
+  inner_long line c cs -> fp_hunks fp = hunks_of line c k0 cs -> content mf = src line k0 cs -> deleted mf = false ->
+  (zlen (src line k0 cs) < isize_max)%Z ->
+  exists rs,
+    apply_modify line line_eqb fp mf Fwd F Normal = Ok (set_content line mf (dst line k0 cs), mk_report Fwd F rs) /\
+    Forall2 (exact_report line Fwd) (fp_hunks fp) rs /\ r_failed (mk_report Fwd F rs) = false.
+Proof. exact diff_applies. Qed.
+Print Assumptions C01_every_script.
+
+Theorem C01_every_script_reverse :
+  forall (line : Type) (line_eqb : line -> line -> bool),
+  (forall a b, line_eqb a b = true <-> a = b) ->
+  forall c k0 cs (fp : Apply.fpatch line) (mf : Apply.mfile line) F,
+  inner_long line c cs -> fp_hunks fp = hunks_of line c k0 cs -> content mf = dst line k0 cs -> deleted mf = false ->
+  (zlen (dst line k0 cs) < isize_max)%Z ->
+  exists rs,
+    apply_modify line line_eqb fp mf Rev F Normal = Ok (set_content line mf (src line k0 cs), mk_report Rev F rs) /\
+    Forall2 (exact_report line Rev) (fp_hunks fp) rs /\ r_failed (mk_report Rev F rs) = false.
+Proof. exact diff_applies_rev. Qed.
+Print Assumptions C01_every_script_reverse.
+
+(* non-vacuity: a script with two changes far enough apart for context 1 gives two hunks *)
+Example C01_generator_example :
+  hunks_of N 1 [1; 2]%N [({| c_rem := [3]%N; c_add := [30; 31]%N |}, [4; 5; 6]%N); ({| c_rem := [7]%N; c_add := [] |}, [8]%N)] =
+  [ {| h_rem := [2; 3; 4]%N; h_rline := 1; h_add := [2; 30; 31; 4]%N; h_aline := 1; h_pre := 1; h_suf := 1 |};
+    {| h_rem := [6; 7; 8]%N; h_rline := 5; h_add := [6; 8]%N; h_aline := 6; h_pre := 1; h_suf := 1 |} ].
+Proof. vm_compute. reflexivity. Qed.
 
 Theorem C01_split_concat : forall bs, concat_lines (split_lines bs) = bs.
 Proof. exact split_concat. Qed.
